@@ -95,6 +95,13 @@ def check(ck):
               'depend on which step was registered first',
               c08.r08_7_lookup, c08.r08_8, c07.r07_7, c05.r05_4,
               c16.r16_6)
+    ck.shared('R04.6', 'the steps of one layer all read the state their '
+              'dependencies left: the views are rebuilt after every layer '
+              'whose updates were structural, before the next layer is '
+              'started (a later layer reading through a stale view would '
+              'see another state than a step of the same layer that reads '
+              'the live store)',
+              c05.r05_3)
 
 
 def r04_1(ck, rf):
